@@ -1306,3 +1306,111 @@ Proof.
   - rewrite (H O a eq_refl). f_equal. lia.
   - apply IH. intros k x Hk. rewrite (H (S k) x Hk). f_equal. lia.
 Qed.
+(* ====================================================================================
+   Part F.  Composition: sensor_to_categorical satisfies the per-dump rule over times.
+   ==================================================================================== *)
+Definition time_sorted (ts : list Z) : Prop := nondecrZ (hd 0 ts) ts.
+
+Lemma per_dump_coded ts vals e0 er P tr init greedy ar :
+  let ends := e0 :: er in
+  ssorted ends -> 0 < P -> time_sorted ts -> length ts = length vals ->
+  per_dump ts vals ends P tr init greedy ar =
+    match spec_per_dump ts vals ends P tr (init_as_coded ts ends P init) greedy with
+    | Some l => Ok l | None => Err end
+  /\ forall v e, s2c ts vals ends P tr init greedy ar = Ok (v, e) ->
+       wf_result v e (Z.of_nat (length ends)) ar.
+Proof.
+  intros ends Hse HP Hts Hlen.
+  set (N := Z.of_nat (length ends)).
+  set (a := (e0 - P) :: ends).
+  set (tvals := map (app_tr tr) vals).
+  set (tv := combine ts tvals).
+  set (dv := combine (map (Dmap a) ts) tvals).
+  set (isg := fun v => memZ v greedy).
+  assert (HN : 0 < N) by (unfold N, ends; simpl length; lia).
+  assert (Hsa : ssorted a).
+  { unfold a. split; [|exact Hse]. unfold ends in *. destruct Hse as [Hf _].
+    constructor; [lia|]. eapply Forall_imp2; [|exact Hf]. simpl. intros. lia. }
+  assert (Hdvof : dv = map (fun p => (Dmap a (fst p), snd p)) tv) by (unfold dv, tv; apply combine_map_l).
+  assert (Hlen2 : length ts = length tvals) by (unfold tvals; rewrite map_length; exact Hlen).
+  (* sortedness and range of the dump indices *)
+  assert (Hnd : nondecr (-1) dv).
+  { destruct ts as [|t0 r]; [exact Logic.I|].
+    apply nondecr_weaken with (x := Dmap a t0); [unfold Dmap; lia|].
+    unfold dv. apply (dv_nondecr a (t0 :: r) tvals t0). exact Hts. }
+  assert (HfN : Forall (fun p => fst p <= N) dv).
+  { rewrite Hdvof. apply Forall_map. apply Forall_forall. intros p _. simpl. unfold Dmap.
+    pose proof (ss_left_le a (fst p)). unfold a, N in *. simpl length in *. lia. }
+  (* start value *)
+  assert (Hst : start_value tv (init_as_coded ts ends P init) (last ends e0) = start_dv dv init N).
+  { unfold start_value, start_dv, init_dv, init_as_coded, ends.
+    assert (H1 : existsb (fun t => t <=? e0 - P) ts = existsb (fun p : Z * Z => fst p =? -1) dv).
+    { rewrite (existsb_combine_l _ ts tvals Hlen2). fold tv. rewrite Hdvof.
+      apply (existsb_dv (Dmap a) tv (fun t => t <=? e0 - P) (fun d => d =? -1)).
+      intro t. unfold Dmap, a. cbn [ss_left]. destruct (e0 - P <? t) eqn:E; lia. }
+    assert (H2 : existsb (fun t => (e0 - P <? t) && (t <=? e0)) ts = existsb (fun p : Z * Z => fst p =? 0) dv).
+    { rewrite (existsb_combine_l _ ts tvals Hlen2). fold tv. rewrite Hdvof.
+      apply (existsb_dv (Dmap a) tv (fun t => (e0 - P <? t) && (t <=? e0)) (fun d => d =? 0)).
+      intro t. unfold Dmap, a, ends. cbn [ss_left]. destruct (e0 - P <? t) eqn:E; destruct (e0 <? t) eqn:E'; cbn [andb]; lia. }
+    rewrite H1, H2.
+    assert (H3 : hd_error (sel (fun t => t <=? last (e0 :: er) e0) tv) =
+                 hd_error (map snd (filter (fun p : Z * Z => fst p <? N) dv))).
+    { f_equal. rewrite Hdvof. change (map snd (filter (fun p : Z * Z => fst p <? N) (map (fun p => (Dmap a (fst p), snd p)) tv)))
+        with (before N (map (fun p => (Dmap a (fst p), snd p)) tv)).
+      apply sel_before. intro t.
+      pose proof (ss_left_full a Hsa ltac:(discriminate) t 0) as Hf.
+      unfold a in Hf at 3. rewrite last_cons in Hf. fold ends in Hf.
+      assert (Hl : last (e0 :: er) e0 = last ends (e0 - P)) by (unfold ends; rewrite !last_cons; reflexivity).
+      rewrite Hl. rewrite <- Hf. unfold Dmap, N, a. simpl length.
+      destruct (ss_left ((e0 - P)%Z :: ends) t <? S (length ends))%nat eqn:E; lia. }
+    rewrite H3. reflexivity. }
+  (* per-dump values *)
+  assert (Hval : forall st, map (dump_value isg tv st) (combine a ends) = map (dvalue isg dv st) (zrange N)).
+  { intro st. unfold zrange, N. rewrite Nat2Z.id. rewrite map_map.
+    replace (length ends) with (length (combine a ends)) by (unfold a; rewrite combine_length; simpl length; lia).
+    apply map_nth_error_ext. intros k [lo hi] Hk. simpl plus.
+    pose proof (ss_pairs a Hsa k lo hi Hk) as Hp.
+    unfold dump_value, dvalue. rewrite Hdvof. f_equal. f_equal.
+    - f_equal. apply sel_before. intro t. destruct (Hp t) as [_ H2]. rewrite H2. unfold Dmap.
+      destruct (ss_left a t <=? k)%nat eqn:E; lia.
+    - apply sel_indump. intro t. destruct (Hp t) as [H1 _]. rewrite H1. unfold Dmap.
+      destruct (ss_left a t =? S k)%nat eqn:E; lia. }
+  pose proof (prep_kept ts vals e0 er P tr init Hlen) as Hprep. cbv zeta in Hprep.
+  fold ends a tvals dv N in Hprep.
+  pose proof (prep_sem isg dv N init Hnd HfN HN) as Hsem.
+  unfold per_dump, sensor_to_categorical, s2c, spec_per_dump. unfold ends. lazy iota beta.
+  fold ends. fold a. fold tvals. fold tv. fold N. fold isg.
+  rewrite Hst, Hprep.
+  destruct (start_dv dv init N) as [st|].
+  - destruct Hsem as [d0 [v0 [l [HK [Hnl [Hfl Hiv]]]]]]. rewrite HK.
+    pose proof (tail_rule greedy ar v0 l N Hnl Hfl) as HT. cbv zeta in HT. fold isg in HT.
+    destruct (s2c_tail (v0 :: map snd l) (0 :: map fst l) N greedy ar) as [v e] eqn:Ete.
+    simpl fst in HT. simpl snd in HT. destruct HT as [HT1 HT2]. split.
+    + rewrite HT1, Hval. f_equal. apply map_ext_in. intros k Hk. apply Hiv. apply zrange_bounds. exact Hk.
+    + intros v' e' Heq. inversion Heq; subst. exact HT2.
+  - rewrite Hsem. split; [reflexivity|]. intros v e Heq. discriminate.
+Qed.
+
+Lemma opt_eqb_eq a b : opt_eqb a b = true -> a = b.
+Proof. destruct a, b; simpl; intro H; try discriminate; [f_equal; lia|reflexivity]. Qed.
+
+Lemma per_dump_guarded ts vals e0 er P tr init greedy ar :
+  let ends := e0 :: er in
+  ssorted ends -> 0 < P -> time_sorted ts -> length ts = length vals ->
+  c10_guard ts ends P init = true ->
+  per_dump ts vals ends P tr init greedy ar =
+    match spec_per_dump ts vals ends P tr init greedy with Some l => Ok l | None => Err end.
+Proof.
+  intros ends Hs HP Ht Hl Hg. apply opt_eqb_eq in Hg.
+  destruct (per_dump_coded ts vals e0 er P tr init greedy ar Hs HP Ht Hl) as [H _].
+  fold ends in H. rewrite Hg in H. exact H.
+Qed.
+
+(* the guard is satisfiable and the statement discriminates: prior event b, then g (greedy) and a inside dump 1,
+   h on the edge of dump 2, late event ignored, plain initial value unused because of the prior event *)
+Example per_dump_guard_example :
+  let ts := [-5; 1; 2; 4; 9] in let vals := [2; 3; 1; 4; 2] in let ends := [0; 2; 4] in
+  ssorted ends /\ time_sorted ts /\ c10_guard ts ends 2 (Some 5) = true /\
+  per_dump ts vals ends 2 None (Some 5) [3] false = Ok [2; 3; 4] /\
+  spec_per_dump ts vals ends 2 None (Some 5) [3] = Some [2; 3; 4].
+Proof. vm_compute. repeat split; try lia; repeat constructor; try lia; intro; discriminate. Qed.
